@@ -7,11 +7,27 @@ From V Require Export CaseLib StreamCodecsSpec.
 Definition copy_bufm1 : nat := Nat.pred (Nat.pow 2 15).
 Definition read_pol (n : nat) : nat := 511.
 
-Inductive case :=
+(* one call of a codec value, as a history lists it *)
+Inductive call :=
 (* Consume of the byte stream / text codec on a scripted reader *)
-| CConsume (c : codec) (close_opt : bool) (rd : option (list rstep * bool)) (d : dkind)
+| KConsume (c : codec) (close_opt : bool) (rd : option (list rstep * bool)) (d : dkind)
            (panicked : bool) (e : option err) (stored : option bytes) (closes : nat)
 (* Produce of the byte stream / text codec on a scripted writer; jo = what swag.WriteJSON answered *)
+| KProduce (c : codec) (close_opt : bool) (wr : option (wstate * bool)) (src : skind)
+           (jo : bytes * option err)
+           (panicked : bool) (e : option err) (got : bytes) (wcloses pcloses : nat)
+(* JSON / XML / YAML Produce of a supported value into a scripted writer (accepting, or failing at
+   an offset and from then on): fe / fgot = what the same call gave on a FRESH producer value *)
+| KDocProd (fmt : nat) (wfail : bool) (pre full : bytes) (fe : option err) (fgot : bytes)
+           (panicked : bool) (e : option err) (got : bytes) (want back : list bytes)
+(* JSON / XML / YAML Consume of a produced document through a scripted reader (healthy, or failing
+   inside the document): fe / fgot = the same call on a FRESH consumer value *)
+| KDocCons (fmt : nat) (rfail : bool) (fe : option err) (fgot : list bytes)
+           (panicked : bool) (e : option err) (want got : list bytes).
+
+Inductive case :=
+| CConsume (c : codec) (close_opt : bool) (rd : option (list rstep * bool)) (d : dkind)
+           (panicked : bool) (e : option err) (stored : option bytes) (closes : nat)
 | CProduce (c : codec) (close_opt : bool) (wr : option (wstate * bool)) (src : skind)
            (jo : bytes * option err)
            (panicked : bool) (e : option err) (got : bytes) (wcloses pcloses : nat)
@@ -25,7 +41,14 @@ Inductive case :=
    slots reached through structs, slices, arrays, maps, pointers, named types; typed integer and
    float slots), produced, consumed into a fresh destination of the same type; want / got = the
    leaves of the two values as path = kind : exact decimal text (differential only) *)
-| CNumSlots (fmt : nat) (panicked : bool) (failed : bool) (want got : list bytes).
+| CNumSlots (fmt : nat) (panicked : bool) (failed : bool) (want got : list bytes)
+(* JSON / XML / YAML: a document whose element / attribute / key names and texts are drawn from a
+   pool, produced, consumed into a fresh destination of the same type; want / got = leaves *)
+| CDocLeaves (fmt : nat) (panicked : bool) (failed : bool) (want got : list bytes)
+(* ONE producer value and ONE consumer value used for all the calls of the list. imm = every call
+   as observed right after it returned; fin = the same calls with every destination and sink
+   re-read after the LAST call of the history returned *)
+| CHist (imm fin : list call).
 
 Definition out_matches (o : outcome) (panicked : bool) (e : option err) : bool :=
   match o with
@@ -34,23 +57,45 @@ Definition out_matches (o : outcome) (panicked : bool) (e : option err) : bool :
   | OOutOfFuel => false
   end.
 
-Definition check_case (c : case) : N :=
-  match c with
-  | CConsume cd close_opt rd d panicked e stored closes =>
+Definition check_call (k : call) : N :=
+  match k with
+  | KConsume cd close_opt rd d panicked e stored closes =>
     let m := consume cd copy_bufm1 read_pol close_opt (live rd) d in
     verdict (out_matches (c_out m) panicked e &&
              (panicked || opt_bytes_eqb stored (c_stored m)) &&
              Nat.eqb closes (c_closes m))
             (consume_ok cd close_opt rd d panicked e stored closes)
-  | CProduce cd close_opt wr src jo panicked e got wcloses pcloses =>
+  | KProduce cd close_opt wr src jo panicked e got wcloses pcloses =>
     let m := produce cd copy_bufm1 close_opt wr src jo in
     verdict (out_matches (p_out m) panicked e &&
              (panicked || bytes_eqb got (p_got m)) &&
              Nat.eqb wcloses (p_wcloses m) && Nat.eqb pcloses (p_pcloses m))
             (produce_ok cd close_opt wr src jo panicked e got wcloses pcloses)
+  | KDocProd _ wfail pre full fe fgot panicked e got want back =>
+    verdict (negb panicked && opt_err_eqb e fe && bytes_eqb got fgot)
+            (doc_produce_ok wfail pre full panicked e got want back)
+  | KDocCons _ rfail fe fgot panicked e want got =>
+    verdict (negb panicked && opt_err_eqb e fe && list_eqb bytes_eqb got fgot)
+            (doc_consume_ok rfail panicked e want got)
+  end.
+
+Fixpoint check_calls (l : list call) : N :=
+  match l with
+  | [] => 0%N
+  | k :: r => N.lor (check_call k) (check_calls r)
+  end.
+
+Definition check_case (c : case) : N :=
+  match c with
+  | CConsume cd close_opt rd d panicked e stored closes =>
+    check_call (KConsume cd close_opt rd d panicked e stored closes)
+  | CProduce cd close_opt wr src jo panicked e got wcloses pcloses =>
+    check_call (KProduce cd close_opt wr src jo panicked e got wcloses pcloses)
   | CDiscard panicked e reads writes closes =>
     let ok := negb panicked && negb (is_some e) && Nat.eqb reads 0 && Nat.eqb writes 0 && Nat.eqb closes 0 in
     verdict ok ok
   | CRoundTrip _ _ panicked ok => verdict true (negb panicked && ok)
   | CNumSlots _ panicked failed want got => verdict true (number_slots_ok panicked failed want got)
+  | CDocLeaves _ panicked failed want got => verdict true (doc_leaves_ok panicked failed want got)
+  | CHist imm fin => N.lor (check_calls imm) (check_calls fin)
   end.
